@@ -145,7 +145,7 @@ CLAIMS = {
             "int_result toggle, group trait add/remove/reorder, mandatory add) plus identical twins and missing sides is expanded by the real "
             "macros under layout_checks and compared through compare_layouts / VerifyLayout::check in both directions, for every container and "
             "context (thorough); all 9 ordered pairs of VerifyLayout::and; every sequence of up to 3 comparisons in one process (the verdict must not depend on earlier calls); "
-            "and every call of a family placed before / inside (other thread, forced through abi_stable's extra-checks hook as a scheduling point) / after the walk of another comparison.",
+            "and every call of a family placed before / inside (other thread, forced through abi_stable's extra-checks hook as a scheduling point) / after the walk of another comparison. Helper methods without a vtable entry (#[skip_func]) added to a trait must leave the verdict Valid.",
             "DESIGN.md §4 C20",
             "abi_stable's comparison is trusted; twins are modules of one crate; edits that keep every C type are recorded, not judged.",
             "exhaustive enumeration of single-edit program pairs on the real code",
@@ -159,7 +159,7 @@ CLAIMS = {
             "go last, so that the last handle must destroy the payload); an extended alphabet adds opaque handles assembled through the published "
             "layout with another module's clone/drop functions, clone_from, and handles dropped while a panic unwinds. Concurrent half: loom explores all interleavings (preemption-bounded) of 2-3 threads operating on handles "
             "to one allocation over the real arc.rs compiled against loom's Arc, every scenario with and without another owner "
-            "(handles-only: the payload must be destroyed exactly once by whichever handle is released last).",
+            "(handles-only: the payload must be destroyed exactly once by whichever handle is released last). Payloads that own further arcs (chains with observers, opaque head) are released through nested, re-entrant drops.",
             "DESIGN.md §4 C10",
             "std Arc / loom's Arc model trusted; bounded pools, depths and preemptions.",
             "explicit-state exploration of the real code + loom (DPOR over all interleavings within a preemption bound)",
@@ -188,7 +188,7 @@ CLAIMS = {
     "C14": ("exploration",
             "Every string of up to L symbols over {NUL, a, b, 2-byte, 3-byte sequence} through From<&str>, From<String> (exact capacity and 1 / 7 / 64 bytes of spare capacity), From<&[u8]>; the raw "
             "buffer is inspected through the tracking allocator (one block holding the prefix and then its one NUL), all value-semantics "
-            "methods are compared with the expected prefix, and the allocation must be freed once with its allocated size. Every input is also placed so that it ends at / starts after an unreadable page: a conversion that reads outside its input kills the process, which is attributed to the case.",
+            "methods are compared with the expected prefix, and the allocation must be freed once with its allocated size. Every input is also placed so that it ends at / starts after an unreadable page: a conversion that reads outside its input kills the process, which is attributed to the case. Strings around every 8- and 16-bit length boundary (up to 131073 bytes) go through the same oracle.",
             "DESIGN.md §4 C14",
             "Inputs longer than the bound not covered; invalid UTF-8 byte slices are outside the property's quantifier.",
             "exhaustive enumeration of a bounded input domain on the real code, crash-isolated",
@@ -211,7 +211,7 @@ CLAIMS = {
             "published layout with that module's functions; the opaque words must not be interpreted locally), is executed on the real code; after every step "
             "the caller's wake count must equal the wake operations and its refcount must never go below the start value and return to it when "
             "no foreign waker is left; it is never used after its last release and never released while a foreign waker lives. Concurrent half: loom explores all interleavings of 2-3 threads operating on foreign wakers over the real "
-            "task/mod.rs compiled against a loom-backed tarc::BaseArc. Stream and Sink::poll_flush are also polled in Ready mode (a wake made during a poll that returns Ready must reach the caller). One poll through the object must enter the implementor's method of the same name exactly once; wakes from destructors run by unwinding and re-entrant release chains are part of the alphabet / sections.",
+            "task/mod.rs compiled against a loom-backed tarc::BaseArc. Stream and Sink::poll_flush are also polled in Ready mode (a wake made during a poll that returns Ready must reach the caller). One poll through the object must enter the implementor's method of the same name exactly once; wakes from destructors run by unwinding and re-entrant release chains are part of the alphabet / sections. Runs in the engine profile and in a prod profile (no debug assertions); a second thread polling again exactly while the last handle of the first family is being released is forced through the caller's release callback.",
             "DESIGN.md §4 C19",
             "Thread hand-off at operation granularity in the history half; loom's model + the tarc shim in the concurrent half; bounded depth.",
             "explicit-state exploration of the real code + loom (DPOR over all interleavings within a preemption bound)",
@@ -223,7 +223,7 @@ CLAIMS = {
             "tag values and payload offsets of COption/CResult are read and written as raw C structs. A C translation unit including the published "
             "bindings.h cross-checks the same values (h_cabi), and a C++ driver operates the runtime-type templates the real cglue-bindgen writes into C++ "
             "headers: container layout (2 x 6 x 7 instance / context / temporary-storage choices) against the plain struct, std::string <-> CSliceRef for "
-            "every short byte string over an alphabet with NUL, OpaqueCallback from vector / functor for every item count and stop position.",
+            "every short byte string over an alphabet with NUL, OpaqueCallback from vector / functor for every item count and stop position. The C++ driver also instantiates the CIterator input-iterator bridge and CPPIterator for every short int sequence, the C driver the STR / REF_SLICE constructors.",
             "DESIGN.md §4 C16, §9.4b",
             "Mirror structs are a faithful transcription of the published declarations; rustc repr(C) == C ABI on this target.",
             "exhaustive enumeration of a finite type/operation matrix on the real code",
